@@ -304,9 +304,14 @@ func mTCPAddrString(a *net.TCPAddr) string { return "127.0.0.1:1" }
 //verif:model (*net.TCPAddr).Network
 func mTCPAddrNetwork(a *net.TCPAddr) string { return "tcp" }
 
+// a runner whose Start fails (the launcher could not start the plugin)
+type vFailStartRunner struct{ *vRunner }
+
+func (r *vFailStartRunner) Start(ctx context.Context) error { return errors.New("runner: cannot start the plugin") }
+
 func harnessC19() {
 	launches := 0
-	first := vChoice(2) // 0: the plugin prints garbage (start fails), 1: a valid line
+	first := vChoice(4) // 0: the plugin prints garbage (start fails), 1: a valid line, 2: RunnerFunc returns an error, 3: the runner's Start returns an error
 	cfg := &ClientConfig{
 		HandshakeConfig: HandshakeConfig{ProtocolVersion: 1, MagicCookieKey: "K", MagicCookieValue: "V"},
 		Plugins:         PluginSet{},
@@ -318,7 +323,16 @@ func harnessC19() {
 			if first == 1 {
 				line = "1|1|tcp|127.0.0.1:1234"
 			}
-			return &vRunner{&vProc{mode: 0, line: line, dead: make(chan struct{})}}, nil
+			r := &vRunner{&vProc{mode: 0, line: line, dead: make(chan struct{})}}
+			switch first {
+			case 2:
+				vCover("runnerfunc-fails")
+				return nil, errors.New("runner: cannot be created")
+			case 3:
+				vCover("runner-start-fails")
+				return &vFailStartRunner{r}, nil
+			}
+			return r, nil
 		},
 	}
 	c := NewClient(cfg)
